@@ -188,11 +188,11 @@ PROPS['C15'] = {
 }
 PROPS['C16'] = {
     'kani': {
-        'quick': [krun(['c16::q::ops::', 'c16::q::ops_payload::'], flags=['--cbmc-args', '--memory-leak-check'], timeout=900,
+        'quick': [krun(['c16::q::ops::', 'c16::q::ops_payload::', 'c16::q::box_arr_payload::'], flags=['--cbmc-args', '--memory-leak-check'], timeout=900,
                        bounds='every alloc-feature operation (11 operations, one harness each) x N in {0,1,3} x T in {u64,()} under Kani\'s allocator model (zero-size request and dealloc-size assertions) with --memory-leak-check; heap-payload elements'),
                   krun(['c16::q::ops_fail::', 'c16::q::ops_align::'], flags=['-Z', 'stubbing'], timeout=900,
                        bounds='allocation failure injected nondeterministically at every alloc::alloc::alloc call (stub); handle_alloc_error stubbed as end-of-path; N in {0,1,3}')],
-        'thorough': [krun(['c16::q::ops::', 'c16::q::ops_payload::', 'c16::t::ops::', 'c16::t::ops_payload::'], flags=['--cbmc-args', '--memory-leak-check'], timeout=2400, bounds='N up to 8, more element types'),
+        'thorough': [krun(['c16::q::ops::', 'c16::q::ops_payload::', 'c16::q::box_arr_payload::', 'c16::t::ops::', 'c16::t::ops_payload::'], flags=['--cbmc-args', '--memory-leak-check'], timeout=2400, bounds='N up to 8, more element types'),
                      krun(['c16::q::ops_fail::', 'c16::t::ops_fail::', 'c16::q::ops_align::', 'c16::t::ops_align::'], flags=['-Z', 'stubbing'], timeout=2400, bounds='N up to 8')],
     },
     'functions': ['every function of src/impl_alloc.rs', 'box_arr! helper'],
